@@ -13,7 +13,10 @@
 (*   * negating all positions and velocities negates every output exactly  *)
 (*     (key(negated) = -key(original)), for every non-zero displacement;   *)
 (*   * the speed limit, continuity of velocity and position at the phase   *)
-(*     boundaries, arrival at the end velocity and position: error <= bound*)
+(*     boundaries, arrival at the end velocity and position, and position  *)
+(*     = integral of velocity (between two instants of one piece the       *)
+(*     position advances by the mean velocity times the interval):         *)
+(*     error <= bound                                                      *)
 (***************************************************************************)
 EXTENDS Integers, Sequences, TLC, Json, IOUtils
 
